@@ -7,10 +7,10 @@ from geom import fd_glyphs_json
 from ufo import build, rat
 
 ID = "C01"
-PROOF_FILES = ["Geom", "Reverse", "Render", "RenderExact", "GoodCert", "C01", "C01Skip", "C01Pre", "C01Codec", "TotalGeom", "TotalFilters", "TotalFilters2", "Total"]
+PROOF_FILES = ["Geom", "Reverse", "Render", "RenderExact", "GoodCert", "C01", "C01Skip", "C01Pre", "C01Codec", "TotalGeom", "TotalFilters", "TotalFilters2", "Total", "C01PreTotal"]
 THEOREM = ("Ufo2ft.C01.C01_outline / C01_round / C01_advance / C01_codec_roundtrip / C01_codec_no_drift / C01_codec_integral / "
            "C01_codec_charstring / C01_codec_cff2 / C01_codec_glyph / C01_outline_pre / C01_outline_pre_skip / C01_pre_irrelevant / C01_exported / "
-           "C01_exported_explicit_empty / C01_holdsExported (+ shared Geom/Reverse/Render theorems); TOTALITY (Props/Total*.lean): C01_preprocess_ok / C01_outline_total / C01_outline_skip_total - on every well-formed closed glyph set (wfCert) the model's pre-processing returns a result and the outline theorem holds of it, no '= .ok' hypothesis")
+           "C01_exported_explicit_empty / C01_holdsExported (+ shared Geom/Reverse/Render theorems); TOTALITY (Props/Total*.lean): C01_preprocess_ok / C01_outline_total / C01_outline_skip_total - on every well-formed closed glyph set (wfCert) the model's pre-processing returns a result and the outline theorem holds of it, no '= .ok' hypothesis; the same for the restricted pre-filter pipeline preprocessF (Props/C01PreTotal.lean): C01_preprocessF_ok (every restriction Sel or none, every skip list) / C01_preprocessF_res / C01_preprocessF_error_geom / C01_preprocessF_error_not_wf (errors characterised) / C01_outline_pre_total / C01_outline_pre_holds_total / C01_pre_irrelevant_total / C01_outline_pre_skip_total (+ _cert variants from wfCert alone) / C01_outline_pre_skip_total_iff / C01_outline_pre_skip_total_spec / C01_outline_pre_holds_total_spec (the model's outline is rejected by the charstring pen exactly when the SPECIFIED outline is)")
 N = {"quick": 250, "thorough": 5000}
 RULE = ("random fonts: closed contours of line / cubic / quadratic segments on a 1/8 grid with 30% half-integer and 25% negative "
         "coordinates (quadratics only with roundTolerance None/0.5 and only when no elevated control point is within 1e-6 of a rounding "
@@ -324,8 +324,17 @@ LEVEL_NOTE = ("Trusted: Lean kernel + standard axioms; correspondence harness; f
               "double arithmetic on the generated dyadic grids (the Type 2 command/program/interpreter layer itself is modelled and proved for "
               "unspecialised charstrings; specialised ones are C12's); quadratic elevation is float arithmetic "
               "(generator avoids rounding boundaries); singular components make contour direction traversal-dependent and are judged by the model "
-              "only; open contours / all-off-curve contours are outside the model. The theorems about the restricted pre-filter pipeline "
-              "(preprocessF) carry the hypothesis that the model returns a result (the totality theorems of Props/Total*.lean cover the plain "
-              "pipeline only); that the lib filter dict / filters= argument / ellipsis is parsed into that pre-filter, and that "
+              "only; open contours / all-off-curve contours are outside the model. The restricted pre-filter pipeline (preprocessF) is now TOTAL too (Props/C01PreTotal.lean): on every well-formed closed glyph set "
+              "(closed, acyclic, distinct keys = glyph names; certified by wfCert) it returns a result for every restriction Sel (or none) and every skip "
+              "list (C01_preprocessF_ok), and C01_outline_pre / _holds / C01_pre_irrelevant / C01_outline_pre_skip are restated without the '= .ok' "
+              "hypothesis and without a rank bound (..._total, ..._total_cert). Errors characterised: on every ACYCLIC set with distinct keys, closed or not, the "
+              "only possible error is KeyError b = .geom (.missing b) with b NOT a key of the source glyph set (a dangling reference; never a glyph the "
+              "skip stage removed), and then the set is not closed - no fuel error, no recursion/cyclic/assertion (C01_preprocessF_res); on any glyph set "
+              "whatsoever an error is a .geom error (C01_preprocessF_error_geom). The last '= .ok' hypothesis of the _holds/_skip variants ('cffOutline returned ops': the charstring pen rejects an unsupported contour SHAPE - "
+              "move point, no on-curve point, >2 off-curves before a cubic - which is no fuel/lookup error) is moved from the model's output to the "
+              "SPECIFICATION: every remaining glyph is present, flat, with a permutation of the specified contours, and cffOutline succeeds exactly when "
+              "specOutline does (C01_outline_pre_skip_total_iff / _total_spec, C01_outline_pre_holds_total_spec); a decidable description of the accepted "
+              "contour shapes is not given (toSegments itself is the definition). Which error a CYCLIC or duplicate-key glyph set produces "
+              "(recursion / cyclic / assertion) is not characterised beyond 'some .geom error, and the set is not well-formed'. That the lib filter dict / filters= argument / ellipsis is parsed into that pre-filter, and that "
               "public.skipExportGlyphs is read from the lib only when no argument is passed, is tied to the code by the correspondence runs "
               "(glyph set, every outline command and every charstring token compared), not proved about Python.")
